@@ -103,6 +103,15 @@ CATALOGUE = [
     '<dtml-var error_value>|<dtml-var error_tb></dtml-try></dtml-in>',
     '<dtml-try><dtml-raise KeyError><dtml-var sk></dtml-raise><dtml-except>'
     '<dtml-var error_value><dtml-var error_tb></dtml-try>',
+    # an expensive format of the same text asked for more than once
+    '<dtml-var sk fmt=structured-text>|<dtml-var va fmt=structured-text>|'
+    '<dtml-var sk fmt=structured-text>',
+    # values created by expressions without names, changed by the template
+    '<dtml-let acc="[]"><dtml-in s3><dtml-call "acc.append(xi)"></dtml-in>'
+    '<dtml-var "acc"></dtml-let>',
+    '<dtml-let d="{}" e="[1]"><dtml-call "d.update({sk: va})">'
+    '<dtml-call "e.append(sk)"><dtml-var "_.len(d)">:<dtml-var "e">'
+    '</dtml-let>',
 ]
 
 
